@@ -426,6 +426,40 @@ def rule_R5d(src):
     return ''.join(out), n
 
 
+def rule_R11c(src):
+    """(lo..hi).map(|p| E).collect::<Result<Vec<_>, _>>()   [optionally followed by `?`]
+       ->  { let mut vx_out = Vec::new(); for p in lo..hi { match E { Ok(vx_v) => { vx_out.push(vx_v); } Err(vx_e) => { return Err(vx_e); } } } Ok(vx_out) }
+    collect::<Result<..>>() evaluates the iterator in order and stops at the first Err, which it returns; the rule is applied only where that Err is
+    also what the enclosing function returns: the expression is followed by `?` or is the tail expression of the function (checked by the type checker:
+    the early `return Err(e)` must have the function's return type)."""
+    mask = rl.code_mask(src)
+    out, pos, n = [], 0, 0
+    rx = re.compile(r'\(([^()]*?)\.\.([^()]*?)\)\s*\.map\(\|\s*([A-Za-z_][A-Za-z0-9_]*)\s*\|')
+    for m in rl.find_code(src, rx, mask=mask):
+        if m.start() < pos:
+            continue
+        o = src.rfind('(', m.start(), m.end() - 1)
+        o = src.index('.map(', m.start()) + 4
+        c = rl.match_bracket(src, o, mask)
+        tail = re.match(r'\s*\.collect::<Result<(?:Vec<_>|_), _>>\(\)', src[c + 1:])
+        if not tail:
+            continue
+        body_expr = src[m.end():c].strip()
+        var = m.group(3)
+        if var == '_':
+            var = 'vx_k'
+        end = c + 1 + tail.end()
+        nl = '\n'
+        new = ('{ let mut vx_out = Vec::new(); for %s in %s..%s {%s match %s { Ok(vx_v) => { vx_out.push(vx_v); } Err(vx_e) => { return Err(vx_e); } } } Ok(vx_out) }'
+               % (var, m.group(1).strip(), m.group(2).strip(), nl, _flat(body_expr)))
+        out.append(src[pos:m.start()])
+        out.append(_pad(new, src[m.start():end]))
+        pos = end
+        n += 1
+    out.append(src[pos:])
+    return ''.join(out), n
+
+
 def rule_R11(src):
     """(lo..hi).map(|p| E).collect()  ->  { let mut vx_out = Vec::new(); for p in lo..hi { vx_out.push(E); } vx_out }
     (std iterators are evaluated in order by collect; the closure is a single expression)"""
@@ -517,6 +551,7 @@ GLOBAL_RULES = [
     ('R5a', 'array pattern `let [a,b,..] = e;` -> indexed lets', rule_R5a),
     ('R5b', 'destructuring assignment `(a, b) = e;` -> temporary + field assignments', rule_R5b),
     ('R5d', 'struct pattern in a for header `for &S { f: v, .. } in e` -> loop variable + field lets', rule_R5d),
+    ('R11c', '(a..b).map(|i| E).collect::<Result<Vec<_>, _>>() -> push loop returning the first Err', rule_R11c),
     ('R11', '(a..b).map(|i| E).collect() -> push loop', rule_R11),
     ('R11b', 'v.iter().map(|x| BODY).collect() / .collect_vec() -> push loop', rule_R11b),
     ('R11d', 'consumer.many((a..b).map(|i| E)) -> for i in a..b { consumer.one(E) }', rule_R11d),
